@@ -484,6 +484,29 @@ fn run_case(seed: u64, lean: &mut Lean, hist: &mut BTreeMap<String, u64>, sample
     (fails, nontrivial, h)
 }
 
+/// C14 "the write stall mechanisms always let writers proceed eventually": a writer that has to wait
+/// because 4 sealed memtables are queued must wait *outside* the journal critical section, since
+/// the flush worker takes the journal lock before it flushes
+fn stall_probe() -> Option<Failure> {
+    use std::sync::atomic::{AtomicBool, Ordering};
+    let scratch = Scratch::new("stall");
+    let db = Database::builder(scratch.join("db")).worker_threads_unchecked(0).open().ok()?;
+    let ks = db.keyspace("a", KeyspaceCreateOptions::default).ok()?;
+    for i in 0..4 { ks.insert(format!("k{i}"), "v").ok()?; if !ks.rotate_memtable().ok()? { return None; } }
+    let done_w = Arc::new(AtomicBool::new(false));
+    let done_f = Arc::new(AtomicBool::new(false));
+    let (k2, d2) = (ks.clone(), done_w.clone());
+    let w = std::thread::spawn(move || { let _ = k2.insert("stalled", "v"); d2.store(true, Ordering::Release); });
+    std::thread::sleep(Duration::from_millis(300)); // the writer has written and is now waiting for a flush
+    let (db2, d3) = (db.clone(), done_f.clone());
+    let f = std::thread::spawn(move || { while fjall::verif::queued_worker_messages(&db2) > 0 { let _ = fjall::verif::verif_worker_step(&db2); } d3.store(true, Ordering::Release); });
+    let t0 = Instant::now();
+    while !(done_w.load(Ordering::Acquire) && done_f.load(Ordering::Acquire)) && t0.elapsed() < Duration::from_secs(15) { std::thread::sleep(Duration::from_millis(10)); }
+    if done_w.load(Ordering::Acquire) && done_f.load(Ordering::Acquire) { let _ = w.join(); let _ = f.join(); return None; }
+    std::mem::forget(scratch);
+    Some(Failure { kind: "impl-vs-oracle", detail: format!("write stall: with 4 sealed memtables queued, a writer (returned: {}) and the flush worker (finished: {}) did not both make progress within 15 s - the stalled writer keeps the flush from running", done_w.load(Ordering::Acquire), done_f.load(Ordering::Acquire)), witness: None })
+}
+
 fn main() {
     let args: Vec<String> = std::env::args().collect();
     let mut replay = None;
@@ -508,6 +531,7 @@ fn main() {
     let mut samples = vec![];
     let mut hist = BTreeMap::new();
     let mut cases = 0;
+    if replay.is_none() { if let Some(f) = stall_probe() { all.push((0, f)); } *hist.entry("stall-probe".to_string()).or_insert(0) += 1; }
     for cs in seeds {
         let res = std::panic::catch_unwind(std::panic::AssertUnwindSafe(|| run_case(cs, &mut lean, &mut hist, &mut samples, thorough, nofloor)));
         cases += 1;
